@@ -112,6 +112,10 @@ Section Run.
     | _ => load lower (parse_disk s)
     end.
 
+  (** does the start tree load at all? (compared with [Font::load]) *)
+  Definition loads (start : string) : bool :=
+    match start_state (text [start]) with Some _ => true | None => false end.
+
   Notation step := (step is_upper lower).
 
   (** ** comparison: an expected line is  outcode "|" (state text or "=")  *)
